@@ -106,9 +106,9 @@ Fixpoint cross_ok (rm : Z) (k : Z) (first_sub : Z) (ch : list Z) : bool :=
   | b :: rest => (if rm <? k then negb (sub_of b =? first_sub) else true) && cross_ok rm (k + 1) first_sub rest
   end.
 
-Definition prop_C08 (iv o : val) : bool :=
-  match decode_C08 iv, o with
-  | Some i, VL [c; s; VZ status] =>
+Definition prop_body (i : c08_input) (o : val) : bool :=
+  match o with
+  | VL [c; s; VZ status] =>
     match as_LZ c, as_LZ s with
     | Some ch, Some saw =>
       let c := i_cfg i in
@@ -128,7 +128,13 @@ Definition prop_C08 (iv o : val) : bool :=
       && (100 <=? status)
     | _, _ => false
     end
-  | _, _ => false
+  | _ => false
+  end.
+
+Definition prop_C08 (iv o : val) : bool :=
+  match decode_C08 iv with
+  | Some i => prop_body i o
+  | None => false
   end.
 
 Definition kf_C08 (i : val) : Z := 0.
